@@ -4,8 +4,9 @@ from pathlib import Path
 sys.path.insert(0, str(Path(__file__).resolve().parent))
 import vlib, http_common
 
-MODULES = ["KrillModel.Props.C20"]
-TABLES = [("permissions", "Perm.lean"), ("routes", "Routes.lean")]
+# C20Src: the body of Authorizer::authenticate_request regenerated from the source (pure_fns) = the model chain
+MODULES = ["KrillModel.Props.C20", "KrillModel.Props.C20Src"]
+TABLES = [("permissions", "Perm.lean"), ("routes", "Routes.lean"), ("pure_fns:C20", "PureFns.lean")]
 
 RULE = ("stream http: real logins at the real daemon (config-file provider, scrypt), then per valid token: every truncation "
         "length, single-bit flips of the base64 text (quick: seeded sample, thorough: all), non-canonical base64 (unused "
@@ -90,5 +91,5 @@ MANIFEST = {
             "with thousands of mutated tokens. A failed bearer token over the Unix socket of a mapped peer authenticates as the peer "
             "(by design of the chain; the peer could have sent no token); the theorem states this fall-through explicitly. Sessions "
             "never expire and survive logout (not part of the property). OpenID Connect is out of scope (offline).",
-    "technique": "Lean 4 proof (iff-characterisations, induction over histories, symbolic crypto) + correspondence check against the real daemon",
+    "technique": "Lean 4 proof (iff-characterisations, induction over histories, symbolic crypto) + source translator (body of the provider chain Authorizer::authenticate_request = the model chain: gen_authenticate_request_eq_model) + correspondence check against the real daemon",
 }
